@@ -462,9 +462,6 @@ def closed_chain_rule(repo, schema=None, modules=None):
 # --- FunctionMapping flow ------------------------------------------------------------------
 FM_EXCLUSIONS = {
     # (file basename, function, member): reason / witness
-    ("ir_util.py", "_constant_value_of_function", "PRESENCE"): (
-        "the argument of $present is a field reference, whose constant value is None: the function returns None "
-        "at the any(value is None) test before the table is consulted", None),
     ("*", "*", "UNKNOWN"): ("UNKNOWN is never produced by module_ir", _w_unknown_never_produced),
 }
 
